@@ -899,7 +899,65 @@ def _r815(ctx):
     _c03c.r33(_RP8b(ctx, "R-8.15", " (after a restart the [0-] half of a re-issued zero swap is not held: when the job completes the release asserts and the main process dies, at every later restart again)"), acq_funcs)
 
 
+def r816(ctx):
+    """The restart file is never written while saved in-flight jobs still wait to be re-issued.
+    After a restart the record read from restart.toml sits in `self.locked0` and is moved to
+    `self.locked` job by job while the workers are started (initiate -> prep_md_items -> pick_lock);
+    write_toml persists `self.locked` only. A commit from any method that runs in that phase writes
+    a record that omits the jobs still waiting: a second crash then loses them."""
+    from .c17 import _may_commit
+    from ..util import SCHED
+    rid = "R-8.16"
+    tree = ctx.tree
+    cls = tree.cls(REPEX, "REPEX_state")
+    methods, commit = _may_commit(cls)
+    for need in ("initiate", "prep_md_items", "write_toml"):
+        if need not in methods:
+            raise AnalysisError(f"R-8.16: REPEX_state.{need} not found")
+    # the saved record must really be consumed in that phase (else the rule has no subject)
+    calls = {n: {c.func.attr for c in walk_local(m) if isinstance(c, ast.Call) and isinstance(c.func, ast.Attribute) and isinstance(c.func.value, ast.Name) and c.func.value.id == "self"} for n, m in methods.items()}
+    phase, work = {"initiate", "prep_md_items"}, ["initiate", "prep_md_items"]
+    while work:
+        for c in calls.get(work.pop(), ()):
+            if c in methods and c not in phase:
+                phase.add(c)
+                work.append(c)
+    consumers = [n for n in phase if any(isinstance(x, ast.Attribute) and x.attr == "locked0" for x in walk_local(methods[n]))]
+    if not consumers:
+        raise AnalysisError("R-8.16: no method of the start-up phase consumes self.locked0 (cannot decide)")
+    n = 0
+    for name in sorted(phase):
+        if name == "write_toml":
+            continue
+        m = methods[name]
+        for c in walk_local(m):
+            if isinstance(c, ast.Call) and isinstance(c.func, ast.Attribute) and isinstance(c.func.value, ast.Name) and c.func.value.id == "self" and c.func.attr in commit and c.func.attr not in phase - {"write_toml"}:
+                ctx.bad(rid, c, f"REPEX_state.{name} runs while the workers are being started and writes restart.toml (`{short(c, 40)}`): after a restart the jobs saved in `locked0` are moved to `locked` one by one in that phase ({', '.join(sorted(consumers))}), so the file written here lists none / only some of them - a second crash before the first completed step loses the jobs that were in flight",
+                        construct=f"{name}: commit during the start-up phase")
+                n += 1
+    f = tree.func(SCHED, "scheduler")
+    cfg = cfg_of(f)
+    loops = [w for w in walk_local(f) if isinstance(w, ast.While) and any(isinstance(c, ast.Call) and isinstance(c.func, ast.Attribute) and c.func.attr == "initiate" for c in ast.walk(w.test))]
+    if not loops:
+        raise AnalysisError("R-8.16: the `while state.initiate()` loop of scheduler() was not found")
+    w = loops[0]
+    recv = next(c.func.value.id for c in ast.walk(w.test) if isinstance(c, ast.Call) and isinstance(c.func, ast.Attribute) and c.func.attr == "initiate" and isinstance(c.func.value, ast.Name))
+    wn = cfg.node_of(w.test)
+    for c in walk_local(f):
+        if isinstance(c, ast.Call) and isinstance(c.func, ast.Attribute) and isinstance(c.func.value, ast.Name) and c.func.value.id == recv and c.func.attr in commit - phase:
+            cn = cfg.node_of(c)
+            inside = any(c in list(ast.walk(st)) for st in w.body)
+            if inside or cfg.reaches(cn, wn):
+                ctx.bad(rid, c, f"scheduler() writes restart.toml (`{short(c, 40)}`) before every worker has been started: jobs saved by the interrupted run are not yet back in the in-flight record", construct="scheduler: commit before the workers are started")
+                n += 1
+    if n == 0:
+        ctx.ok(rid, methods["initiate"], f"no commit in the start-up phase ({len(phase)} methods reachable from initiate / prep_md_items; saved jobs are consumed in {', '.join(sorted(consumers))})")
+        ctx.ok(rid, w, "scheduler(): no commit before or inside the start-up loop")
+
+
 def run(ctx):
+    ctx.rule("R-8.16", "restart.toml is not written while saved in-flight jobs wait to be re-issued: no committing call in the methods that run while the workers are started, nor in scheduler() up to the end of the start-up loop", floor=2)
+    ctx.attempt(r816, ctx)
     ctx.rule("R-8.7", "one ensemble-index unit per store: self.locked entries offset-removed, restart.toml's locked and lock()/swap() indices in state-matrix rows", floor=4)
     ctx.rule("R-8.8", "the commit is final: nothing restart.toml serialises is modified after write_toml within the step", floor=1)
     ctx.rule("R-8.10", "every [current] key that write_toml maintains is stored on every path to the dump", floor=3)
@@ -939,6 +997,9 @@ def run(ctx):
 
 
 VARIANTS = [
+    B("c08-restart-file-written-at-the-first-submission", REPEX, "            if self.screen > 0:\n                self.print_start()\n", "            if self.screen > 0:\n                self.print_start()\n            self.write_toml()\n", "R-8.16", control=True, why="seeded C08_o"),
+    B("c08-restart-file-written-when-a-job-is-picked", REPEX, "    def prep_md_items(self, md_items):\n        \"\"\"Fill md_items with picked path and ens.\"\"\"\n", "    def prep_md_items(self, md_items):\n        \"\"\"Fill md_items with picked path and ens.\"\"\"\n        self.write_toml()\n", "R-8.16", why="sibling of C08_o"),
+    K("c08-keep-commit-at-the-top-of-the-cycle", REPEX, "        self.cstep += 1\n\n        if self.printing() and self.cstep <= self.tsteps:", "        self.write_toml()\n        self.cstep += 1\n\n        if self.printing() and self.cstep <= self.tsteps:", why="loop() runs after every worker was started"),
     B("c08-old-restart-file-removed-before-the-rename", REPEX, '        os.replace("./restart.toml.tmp", "./restart.toml")\n', '        if os.path.isfile("./restart.toml"):\n            os.remove("./restart.toml")\n        os.rename("./restart.toml.tmp", "./restart.toml")\n', "R-8.2", control=True, why="seeded C08_n"),
     B("c08-old-restart-file-moved-aside-first", REPEX, '        os.replace("./restart.toml.tmp", "./restart.toml")\n', '        if os.path.isfile("./restart.toml"):\n            os.rename("./restart.toml", "./restart.toml.bak")\n        os.rename("./restart.toml.tmp", "./restart.toml")\n', "R-8.2", why="sibling of C08_n: the final name is absent between the two renames"),
     K("c08-keep-backup-copy-before-replace", REPEX, '        os.replace("./restart.toml.tmp", "./restart.toml")\n', '        if os.path.isfile("./restart.toml"):\n            shutil.copyfile("./restart.toml", "./restart.toml.bak")\n        os.replace("./restart.toml.tmp", "./restart.toml")\n', also=[(REPEX, "import os\n", "import os\nimport shutil\n")], why="a copy leaves the final name in place"),
